@@ -7,7 +7,7 @@ import conn_common
 KEY = {"NothingAfterPartial": "write-after-partial", "WholeFrames": "frames-interleaved-or-repeated",
        "CountExact": "byte-count-attribution", "OkImpliesWhole": "success-reported-for-short-write",
        "WriterHang": "writer-hang", "SpuriousRefusal": "spurious-refusal",
-       "PartialWithoutClose": "partial-frame-without-close"}
+       "PartialWithoutClose": "partial-frame-without-close", "NotStartedNoBytes": "bytes-written-although-reported-not-started"}
 
 
 def _vec_validate(ctx, path, sequential, name):
@@ -90,6 +90,11 @@ def run(ctx):
             return path, None, evs
         recs = [dict(ev="wire", bytes=w[0]["bytes"], closed=w[0]["closed"], proto=w[0]["proto"], req=0, wok=0)]
         recs += [dict(ev="exp", bytes=e["bytes"], closed=0, proto=0, req=e["req"], wok=e["wok"]) for e in evs if e["ev"] == "frame_exp"]
+        # a write reported "context ended before it began" (n = 0, context error) must have left no bytes
+        notstarted = {e["req"] for e in evs if e["ev"] == "x_wend" and e.get("err") == "ctx" and e.get("a") == 0}
+        for rec in recs[1:]:
+            if rec["req"] in notstarted:
+                rec["wok"] = -2
         wp = path.replace(".ndjson", ".wire.ndjson")
         vf.write_ndjson(wp, recs)
         r = vf.run_tlc(ctx, "Trace_WireMon", "Trace_WireMon.cfg", workers=1, heap="2g", timeout=600, env={"VF_TRACE": wp},
